@@ -157,6 +157,10 @@ def match_known(known, pid, sig, keys, count):
 
 def write_evidence(pid, tier, seed, level, coverage, assumptions, wall, nviol):
     d = os.path.join(VERIF, 'evidence')
+    if os.path.realpath(os.environ.get('VERIF_REPO', '/repo')) != '/repo':
+        # a scratch copy of the repository is being examined (tools/trymut.py): its runs
+        # are not evidence about /repo
+        d = '/tmp/verif-scratch-evidence'
     os.makedirs(d, exist_ok=True)
     ev = {
         'property_id': pid, 'tier': tier, 'seed': seed, 'level': level,
